@@ -15,4 +15,4 @@ for P in "$@"; do
   [ "$(git -C $wt diff | git patch-id --stable | cut -d' ' -f1)" = "$(git patch-id --stable < $out/patch.diff | cut -d' ' -f1)" ] || echo "CONTAMINATED after" >> .work/seedrun-$id-$P.log
 done
 # restore generated Lean files to what /repo says (scratch runs regenerate them from the worktree)
-python3 translator/gen_rules.py /repo > /dev/null 2>&1; python3 translator/gen_schema.py /repo > /dev/null 2>&1; python3 translator/gen_builder.py /repo > /dev/null 2>&1; python3 translator/gen_rows.py /repo > /dev/null 2>&1; VERIF_REPO=/repo python3 translator/gen_consts.py > /dev/null 2>&1; VERIF_REPO=/repo python3 translator/gen_valueorder.py > /dev/null 2>&1
+python3 translator/gen_rules.py /repo > /dev/null 2>&1; python3 translator/gen_schema.py /repo > /dev/null 2>&1; python3 translator/gen_builder.py /repo > /dev/null 2>&1; python3 translator/gen_rows.py /repo > /dev/null 2>&1; python3 translator/gen_cost.py /repo > /dev/null 2>&1; VERIF_REPO=/repo python3 translator/gen_consts.py > /dev/null 2>&1; VERIF_REPO=/repo python3 translator/gen_valueorder.py > /dev/null 2>&1
